@@ -211,7 +211,7 @@ def concrete_batch(pid, tier, jobs):
     env = dict(os.environ)
     env["PYTHONPATH"] = HERE + (":" + os.environ["SX_REPO"] if os.environ.get("SX_REPO") else "")
     env["PYTHONDONTWRITEBYTECODE"] = "1"
-    env.pop("PYTHONHASHSEED", None)
+    env["PYTHONHASHSEED"] = "0"   # harnesses that pin set iteration order to string hashes rely on it
     p = subprocess.run([CONCRETE_PY, "-m", "sx.concrete", pid, tier], input=json.dumps(jobs), text=True,
                        capture_output=True, env=env, cwd=HERE, timeout=1800)
     if p.returncode != 0:
@@ -223,6 +223,9 @@ REPLAY_TEMPLATE = '''#!/venv/bin/python
 """Replay of a counterexample found by sx ({hid}, clause {clause!r}) against the real code.
 Exit 1 = the property is violated by the real code on this input; exit 0 = it holds."""
 import json, os, sys
+if os.environ.get("PYTHONHASHSEED") != "0":   # some harnesses pin set iteration order to string hashes
+    os.environ["PYTHONHASHSEED"] = "0"
+    os.execv(sys.executable, [sys.executable] + sys.argv)
 sys.path.insert(0, {here!r})
 from sx.concrete import run_one
 job = json.loads({job!r})
